@@ -669,15 +669,20 @@ def do_array(run, drv, pending, case):
             if call[2] is None or [bits(v) for v in call[2]] != [bits(v) for v in rows[idx]]:
                 fail = fail or "the injected random numbers of this simulation were not the ones used"
     if exc is None:
-        if len(rec) != nsim and not rec.missing:
+        if len(rec) == 0 and not rec.missing:
+            # the private helper exists but this driver never calls it (a rewrite that simulates inline): nothing recorded at the
+            # hook; the public-path oracle above and the quantile oracle below carry the clause
+            run.count(f"helper-not-called:{module}._simulate_catalog")
+        elif len(rec) != nsim and not rec.missing:
             fail = fail or f"{len(rec)} catalogs simulated for {nsim} simulations"
         qs, ob, sims = res
         fail = fail or quantile_oracle(qs, ob, sims, nsim)
     if fail:
         run.oracle_failure(case, fail)
     # correspondence
-    if rec.missing:
-        run.count(f"helper-missing:{module}._simulate_catalog")
+    if rec.missing or (exc is None and len(rec) == 0):
+        # the hook is absent, or present but never called (inline simulation): nothing to hand to the per-call models
+        run.count(f"helper-missing:{module}._simulate_catalog" if rec.missing else f"helper-not-called:{module}._simulate_catalog:model-skipped")
         if exc is None and res is not None:
             qs, ob, sims = res
             if not (any(math.isnan(float(s)) for s in sims) or math.isnan(float(ob))):
@@ -1372,6 +1377,8 @@ def do_public(run, drv, pending, case):
     fail = None
     if rec.missing:
         run.count(f"helper-missing:{module}._simulate_catalog")
+    elif len(rec) == 0:
+        run.count(f"helper-not-called:{module}._simulate_catalog")     # simulated inline: the public-path oracle decides
     elif len(rec) != nsim:
         fail = f"{len(rec)} catalogs simulated for {nsim} simulations"
     fail = fail or public_stat_oracle(run, case, module, view, conditional, rates, Or, fore, rows, seed, nsim, res)
@@ -2178,6 +2185,9 @@ def do_big(run, drv, pending, case):
     hook_check(run, rec, n, module)
     if rec.missing:
         run.count(f"helper-missing:{module}._simulate_catalog")
+    elif len(rec) == 0:
+        run.count(f"helper-not-called:{module}._simulate_catalog")     # simulated inline: nothing to read at the hook
+        return
     elif len(rec) != nsim:
         run.oracle_failure(case, f"{len(rec)} catalogs simulated for {nsim} simulations")
         return
